@@ -350,6 +350,13 @@ func propC19(c *Check) {
 				case *ssa.Panic:
 					bad++
 					c.Violated("R2", "explicit-panic @ "+FuncKey(f), p.InstrPos(in), "explicit panic reachable from a goroutine (kills the process): "+p.CG().PathTo(f, parent))
+				case *ssa.FieldAddr:
+					// a pointer that can be the nil constant on some path (a local `var x *T` assigned in a loop or
+					// branch) is dereferenced without a dominating nil test
+					if mayBeNilConst(x.X, 0) && !knownNonNilAt(x.X, b) {
+						bad++
+						c.Violated("R2", "possibly-nil-dereference @ "+FuncKey(f), p.InstrPos(in), "a pointer that is nil on some path is dereferenced without a nil check, reachable from a goroutine (a nil dereference there kills the process): "+p.CG().PathTo(f, parent))
+					}
 				}
 			}
 		}
@@ -415,7 +422,44 @@ func propC19(c *Check) {
 	c.Depend("R3", "C13", propC13, map[string]bool{"R1": true, "R2": true, "R3": true}, "locking EndBlocker's 'validator in power ranking' exit and CometBFT's rejection of zero-power additions are excluded only by the ranking discipline")
 	// R4
 	c.noGlobalWrites("R4")
+	// the ante chain's writes are committed before the messages run: a store write there survives a failed message
+	{
+		areach, aparent := p.CG().Reach(p.Contexts().Ante, nil)
+		nA, badA := 0, 0
+		for f := range areach {
+			nA++
+			for _, s := range p.StoreSites(f) {
+				if s.IsWrite() {
+					badA++
+					c.Violated("R4", "ante-handler-writes "+ownerKey(p, s.Field)+" @ "+FuncKey(f), p.InstrPos(s.Call), "state written while a transaction is admitted ("+p.CG().PathTo(f, aparent)+"): baseapp commits the ante handler's branch before the messages run, so the write survives a transaction whose message fails")
+				}
+			}
+		}
+		if badA == 0 {
+			c.Held("R4", "ante-handler-writes-nothing", "", fmt.Sprintf("%d repository functions reachable from the guard's AnteHandle: no store write", nA))
+		}
+		c.Floor("R4", "functions reachable from AnteHandle (positive control: the relayer proposer lookup)", nA, 2)
+	}
 	// R5
 	c.errorDiscipline("R5", 500)
 	c.writeFailureMustFail("R5", 0)
+}
+
+
+// mayBeNilConst: v is, on some path, the nil constant (directly or through φ-nodes).
+func mayBeNilConst(v ssa.Value, depth int) bool {
+	if depth > 4 {
+		return false
+	}
+	switch x := v.(type) {
+	case *ssa.Const:
+		return x.Value == nil
+	case *ssa.Phi:
+		for _, e := range x.Edges {
+			if mayBeNilConst(e, depth+1) {
+				return true
+			}
+		}
+	}
+	return false
 }
